@@ -104,7 +104,7 @@ CHECKS['C15'] = dict(
 
 CHECKS['C16'] = dict(
     technique='outcome monitor (crash classifier over exit status, panic text, signals, sanitizer reports, step budget, in-VM stack monitor) over a native exerciser derived from the source, hostile program families, all corpora and accepted mutants, on debug and release (+ASan thorough)',
-    text='Every native discovered by scanning NativeMetaBuilder declarations is called with 0..arity+1 arguments drawn from a 37-value zoo as plain call, bound value, .call and callback; 331 hostile families (non-callables, wrong receivers, raise of non-errors, errors in catch and str(), built-in subclassing, wrong-kind values reaching call/raise/index/iterate/inherit/catch through captured (boxed) locals, superclass expressions of every kind with and without methods that use super, recursion to the frame limit through 18 call shapes in and out of try and fibers and entered through one and two extra frames (both parities of the frame counter), cyclic str, limits, comparators, mutation during iteration, channel and exit misuse); every generated program of every kind; thousands of mutants the front end accepts. The only allowed endings are normal exit, exit code, reported deadlock or a language error with a traceback.',
+    text='Every native discovered by scanning NativeMetaBuilder declarations is called with 0..arity+1 arguments drawn from a 37-value zoo as plain call, bound value, .call and callback; 394 hostile families (non-callables, wrong receivers, raise of non-errors, errors in catch and str(), built-in subclassing, wrong-kind values reaching call/raise/index/iterate/inherit/catch through captured (boxed) locals, superclass expressions of every kind with and without methods that use super, recursion to the frame limit through 18 call shapes in and out of try and fibers and entered through one and two extra frames (both parities of the frame counter), cyclic str, limits, comparators, mutation during iteration, channel and exit misuse); every generated program of every kind; thousands of mutants the front end accepts. The only allowed endings are normal exit, exit code, reported deadlock or a language error with a traceback.',
     note='A crash is attributed to a known finding only by its family label plus panic site (known_findings.json: D5, D9, D12, D20, D25, D27, D39); any other crash is a violation. io/env natives run in a scratch working directory with empty stdin.', ref='DESIGN.md §2 C16')
 
 PENDING = {}
